@@ -11,8 +11,10 @@
    gc_gen_ok                       the CLI exited 0 and the package compiled
    gc_text                         the sorter's block of the generated file, one trimmed line
                                    each (informational: compared with render_sorter)
-   gc_vals                         per struct field the 2-3 values used for it (ranks / bools; one
-                                   dummy value for an untagged field); gc_univ = all combinations
+   gc_vals                         per struct field the 2-3 values used for it, each as its two
+                                   views [read plainly; read through the accessor] (ranks /
+                                   bools; a dummy where a view is never read; one dummy value
+                                   for an untagged field); gc_univ = all combinations
    gc_seen_t / gc_seen_f           row a, bit b: Less(i,j) returned true / false for some slice
                                    and positions with s[i] = univ[a], s[j] = univ[b] (all slices
                                    of <= 4 elements over gc_univ when exhaustive)
@@ -35,7 +37,7 @@ Record gs_case := {
   gc_raw : list rfieldT; gc_wellformed : bool;
   gc_gen_ok : bool;
   gc_text : list string;
-  gc_vals : list (list val);
+  gc_vals : list (list (list val));
   gc_seen_t : list N; gc_seen_f : list N;
   gc_runs : list gs_run }.
 
@@ -48,10 +50,10 @@ Fixpoint unpack (s : string) : list nat :=
   end.
 
 (* all combinations of the per-field values; field 0 varies fastest *)
-Fixpoint univ_of (vals : list (list val)) : list elem :=
+Fixpoint univ_of (vals : list (list (list val))) : list elem :=
   match vals with
   | [] => [[]]
-  | vs :: rest => flat_map (fun tl => map (fun v => v :: tl) vs) (univ_of rest)
+  | vs :: rest => flat_map (fun tl => map (fun v => v ++ tl) vs) (univ_of rest)
   end.
 Definition gc_univ (c : gs_case) : list elem := univ_of (gc_vals c).
 
